@@ -18,7 +18,7 @@ def jobs(tier, ctx):
     for op in ('F_INDEX', 'F_RINDEX'):
         for ln in ((2,) if tier == 'quick' else (0, 1, 2, 3)):
             for k in idx:
-                add(op, ['NUM', 'ARR'], extra_defs=['NUMK0=%dLL' % k, 'LENK1=%d' % ln], tag='len%d.i%s' % (ln, str(k).replace('-', 'm')))
+                add(op, ['NUM', 'ARRM'], extra_defs=['NUMK0=%dLL' % k, 'LENK1=%d' % ln], tag='len%d.i%s' % (ln, str(k).replace('-', 'm')))
     # element lvalues (a[i] = ..., a[<i] = ...): the index stays fully symbolic (no element is read by these opcodes)
     for op in ('F_INDEX_LVALUE', 'F_RINDEX_LVALUE'):
         for c in ('LVARR', 'LVSTR', 'LVBUF'):
@@ -31,14 +31,15 @@ def jobs(tier, ctx):
         for c in ('STR', 'BUF'):
             add(op, ['NUM', c])
     # arithmetic / comparison / bit operators on every scalar pairing the switch distinguishes
-    pairs = [('NUM', 'NUM'), ('NUM', 'REAL'), ('REAL', 'NUM'), ('STR', 'STR'), ('STR', 'NUM'), ('NUM', 'STR'), ('BUF', 'BUF'), ('ARR', 'NUM')]
+    pairs = [('NUM', 'NUM'), ('NUM', 'REAL'), ('REAL', 'NUM'), ('STR', 'STR'), ('STR', 'NUM'), ('NUM', 'STR'), ('BUF', 'BUF'), ('ARRM', 'NUM')]
     ops2 = ['F_ADD', 'F_SUBTRACT', 'F_MULTIPLY', 'F_DIVIDE', 'F_MOD', 'F_EQ', 'F_NE', 'F_LT', 'F_LE', 'F_GT', 'F_GE', 'F_AND', 'F_OR', 'F_XOR', 'F_LSH', 'F_RSH']
     for op in ops2:
         for (a, b) in (pairs if (tier != 'quick' or op == 'F_ADD') else (pairs[:3] if op in ('F_DIVIDE', 'F_MOD') else (pairs[:1] + pairs[3:4] if op in ('F_LT', 'F_EQ') else []))):
-            add(op, [a, b], checks=(['--signed-overflow-check'] if op in ('F_DIVIDE', 'F_MOD') else []))
+            lk = (['LENK0=2'] if a == 'ARRM' else []) + (['LENK1=2'] if b == 'ARRM' else [])
+            add(op, [a, b], checks=(['--signed-overflow-check'] if op in ('F_DIVIDE', 'F_MOD') else []), extra_defs=lk)
     for op in ('F_NEGATE', 'F_NOT', 'F_COMPL', 'F_POP_VALUE'):
-        for a in (('NUM', 'REAL', 'STR', 'ARR') if tier != 'quick' else ('NUM', 'STR')):
-            add(op, [a])
+        for a in (('NUM', 'REAL', 'STR', 'ARRM') if tier != 'quick' else ('NUM', 'STR')):
+            add(op, [a], extra_defs=(['LENK0=2'] if a == 'ARRM' else []))
     if tier != 'quick':
         for c in ('NUM', 'REAL', 'OBJ'):
             add('F_INDEX', ['NUM', c])
